@@ -33,7 +33,15 @@ def getVerilogModuleName(obj:Logic, noInstanceNumber=False):
 
     '''
     if (has_method(obj, 'structureName')):
-        return obj.structureName()
+        wires = [p.wire for p in obj.inPorts + obj.outPorts + obj.inOutPorts]
+        
+        if (len(set(wires)) == len(wires)):
+            return obj.structureName()
+        
+        # The same wire is connected to several ports of this object. The body
+        # emitted for it names that wire after only one of the ports, so it must
+        # not be shared with the other instances of the structure 
+        return obj.structureName() + "_" + hex(id(obj))[2:]
     
     str = type(obj).__name__  
     if (not(noInstanceNumber)):
